@@ -258,6 +258,8 @@ func (r *Run) resolve(d Desc) string {
 			return ""
 		}
 		switch d.V {
+		case "totp_last":
+			return u.TOTPLastCode
 		case "csel":
 			return u.ConfirmSelector
 		case "cver":
